@@ -153,3 +153,423 @@ Proof.
     auto; [arr_eq_step Hx Hs | arr_eq_spec Hx Hs | ].
   intros cnt acc. apply array_reduce_sem, inv_aok, I.
 Qed.
+
+(* ------------------------------------------------------------------ in-place buffer functions *)
+Lemma direct_some hp a i b : direct_ok hp a = Some (i, b) ->
+  a = Some i /\ hget hp i = Some b /\ shared b = false /\ bimm b = false.
+Proof.
+  unfold direct_ok. destruct a as [k|]; [|discriminate]. destruct (hget hp k) as [c|] eqn:E; [|discriminate].
+  destruct (shared c || bimm c) eqn:G; [discriminate|]. intros H. inversion H; subst.
+  apply orb_false_elim in G. tauto.
+Qed.
+
+Lemma lset_abs_same st x : x < length (shnd st) -> hsl (hnd st x) = false ->
+  lset (abs st) x (false, aval (sheap st) (hbuf (hnd st x))) = abs st.
+Proof.
+  intros Hx Hs. rewrite <- (absh_arr _ _ Hs), <- nth_abs. apply lset_same.
+Qed.
+
+Lemma direct_guard st x (specf : hint -> sval -> sval * outcome) o :
+  inv st -> x < length (shnd st) -> hsl (hnd st x) = false ->
+  direct_ok (sheap st) (hbuf (hnd st x)) = None ->
+  (forall h v, v = None \/ guarded h = true -> specf h v = G v) ->
+  hint_of st o OGuard = hint_at (sheap st) (hbuf (hnd st x)) 0 false ->
+  let h := hint_of st o OGuard in
+  (lset (abs st) x (false, fst (specf h (aval (sheap st) (hbuf (hnd st x))))),
+   snd (specf h (aval (sheap st) (hbuf (hnd st x))))) = (abs st, OGuard).
+Proof.
+  intros I Hx Hs Dk Sp Hh h. subst h. rewrite Hh.
+  assert (Gd0 : aval (sheap st) (hbuf (hnd st x)) = None \/
+              guarded (hint_at (sheap st) (hbuf (hnd st x)) 0 false) = true).
+  { unfold direct_ok in Dk. destruct (hbuf (hnd st x)) as [i|] eqn:Ha; [|left; reflexivity].
+    destruct (inv_get st x i I Ha) as [b [E _]]. rewrite E in Dk.
+    destruct (shared b || bimm b) eqn:Gd; [|discriminate].
+    right. unfold hint_at, guarded. rewrite E. exact Gd. }
+  rewrite (Sp _ _ Gd0). cbn [G fst snd]. rewrite lset_abs_same by assumption. reflexivity.
+Qed.
+
+Lemma step_direct st o x (F : buf -> res buf) (specf : hint -> sval -> sval * outcome)
+  (r : heap -> arr -> nat -> buf -> ares) :
+  inv st -> target o = x -> is_slice_op o = false ->
+  (forall st, step st o =
+     if negb (x <? length (shnd st)) then (st, OGuard) else
+     if negb (Bool.eqb (hsl (hnd st x)) false) then (st, OGuard) else
+     match direct_ok (sheap st) (hbuf (hnd st x)) with
+     | None => (st, OGuard)
+     | Some (i, b) => fin st x false (r (sheap st) (hbuf (hnd st x)) i b)
+     end) ->
+  (forall vs h, sstep vs o h =
+     if negb (x <? length vs) then (vs, OGuard) else
+     let '(k, v) := nth x vs (false, None) in
+     if negb (Bool.eqb k false) then (vs, OGuard) else
+     (lset vs x (k, fst (specf h v)), snd (specf h v))) ->
+  (forall h v, v = None \/ guarded h = true -> specf h v = G v) ->
+  (forall hp i b cnt acc, hget hp i = Some b -> buf_wf b -> bref b = 1 -> shared b = false -> bimm b = false ->
+     ares_ok hp (Some i) (r hp (Some i) i b) (specf (hint_at hp (Some i) cnt acc) (aval hp (Some i))) false) ->
+  step_ok st o.
+Proof.
+  intros I Tx Sl Es Ss Sg Sem.
+  destruct (Nat.ltb_spec x (length (shnd st))) as [Hx|Hx].
+  2:{ unfold step_ok. rewrite Es, (proj2 (Nat.ltb_ge _ _) Hx). cbn [negb].
+      rewrite Ss, abs_length, (proj2 (Nat.ltb_ge _ _) Hx). cbn [negb].
+      split; [discriminate|]. split; [exact I|reflexivity]. }
+  destruct (hsl (hnd st x)) eqn:Hs.
+  { unfold step_ok. rewrite Es, (proj2 (Nat.ltb_lt _ _) Hx), Hs. cbn [negb Bool.eqb].
+    rewrite Ss, abs_length, (proj2 (Nat.ltb_lt _ _) Hx), nth_abs. cbn [negb].
+    unfold absh. rewrite Hs. cbn [Bool.eqb negb].
+    split; [discriminate|]. split; [exact I|reflexivity]. }
+  destruct (direct_ok (sheap st) (hbuf (hnd st x))) as [[i b]|] eqn:Dk.
+  - destruct (direct_some _ _ _ _ Dk) as [Ha [E [Sh Im]]].
+    destruct (inv_get st x i I Ha) as [b' [E' [W [R C]]]]. rewrite E in E'. inversion E'; subst b'.
+    assert (R1 : bref b = 1). { unfold shared in Sh. apply Nat.leb_gt in Sh. lia. }
+    eapply (arr_step st o false (r (sheap st) (hbuf (hnd st x)) i b) (fun h => specf h (aval (sheap st) (hbuf (hnd st x))))); rewrite ?Tx; auto.
+    + rewrite Es, (proj2 (Nat.ltb_lt _ _) Hx), Hs, Dk. reflexivity.
+    + intros h. rewrite Ss, abs_length, (proj2 (Nat.ltb_lt _ _) Hx), nth_abs, (absh_arr _ _ Hs). reflexivity.
+    + intros cnt acc. rewrite Ha. apply Sem; auto.
+  - unfold step_ok. rewrite Es, (proj2 (Nat.ltb_lt _ _) Hx), Hs, Dk. cbn [negb Bool.eqb].
+    split; [discriminate|]. split; [exact I|].
+    rewrite Ss, abs_length, (proj2 (Nat.ltb_lt _ _) Hx), nth_abs, (absh_arr _ _ Hs). cbn [negb Bool.eqb].
+    apply (direct_guard st x specf o I Hx Hs Dk Sg). rewrite hint_of_at, Tx. reflexivity.
+Qed.
+
+Lemma step_bufset st x tr pos d : inv st -> step_ok st (OBufSet x tr pos d).
+Proof.
+  intros I.
+  apply (step_direct st (OBufSet x tr pos d) x (fun b => buffer_set b tr pos d)
+           (fun h v => s_bufset h v tr pos d)
+           (fun hp a i b => lift hp a (do b1 <- buffer_set b tr pos d; Ok (hset hp i b1, a, 0)))); auto.
+  - intros h v [->|Gd]; [reflexivity|]. unfold s_bufset. destruct v as [[t l]|]; [rewrite Gd|]; reflexivity.
+  - intros. apply bufset_sem; auto.
+Qed.
+
+Lemma step_bufcut st x off len : inv st -> step_ok st (OBufCut x off len).
+Proof.
+  intros I.
+  apply (step_direct st (OBufCut x off len) x (fun b => buffer_cut b off len)
+           (fun h v => s_bufcut h v off len)
+           (fun hp a i b => lift hp a (do b1 <- buffer_cut b off len; Ok (hset hp i b1, a, 0)))); auto.
+  - intros h v [->|Gd]; [reflexivity|]. unfold s_bufcut. destruct v as [[t l]|]; [rewrite Gd|]; reflexivity.
+  - intros. apply bufcut_sem; auto.
+Qed.
+
+Lemma step_bufinsert st x pos d : inv st -> step_ok st (OBufInsert x pos d).
+Proof.
+  intros I.
+  apply (step_direct st (OBufInsert x pos d) x (fun b => buffer_insert b pos (length d))
+           (fun h v => s_bufinsert h v pos d)
+           (fun hp a i b => lift hp a (do b1 <- buffer_insert b pos (length d);
+                                       do hp2 <- store (hset hp i b1) i pos d; Ok (hp2, a, 0)))); auto.
+  - intros h v [->|Gd]; [reflexivity|]. unfold s_bufinsert. destruct v as [[t l]|]; [rewrite Gd|]; reflexivity.
+  - intros hp i b cnt acc E W R S Im.
+    pose proof (bufinsert_sem hp i b pos d cnt acc E W R S Im) as H. unfold insert_at in H. rewrite E in H. exact H.
+Qed.
+
+(* ------------------------------------------------------------------ new buffer, flags *)
+Lemma step_new st x len imm nc : inv st -> step_ok st (ONew x len imm nc).
+Proof.
+  intros I. arr_guards I st x Hx Hs.
+  set (a := hbuf (hnd st x)).
+  eapply (arr_step st (ONew x len imm nc) false
+            (ADone (unref_opt (sheap st) a ++ [Some (new_buf len imm nc)]) (Some (length (sheap st))) (alloc_size len))
+            (fun h => D (Some (0, [])))); auto.
+  - unfold step. cbn [target is_slice_op]. rewrite (proj2 (Nat.ltb_lt _ _) Hx), Hs. cbn [negb Bool.eqb].
+    fold a. unfold halloc. destruct a as [i|]; cbn [unref_opt fin]; rewrite ?length_hunref; reflexivity.
+  - arr_eq_spec Hx Hs.
+  - intros cnt acc. cbn [ares_ok target]. fold a. split.
+    + apply P_fresh0; [reflexivity|apply new_buf_wf].
+    + unfold D, aval. rewrite hget_app_r by (rewrite length_unref_opt; lia).
+      rewrite length_unref_opt, Nat.sub_diag. reflexivity.
+Qed.
+
+Lemma step_flags st x imm nc : inv st -> step_ok st (OFlags x imm nc).
+Proof.
+  intros I. arr_guards I st x Hx Hs.
+  destruct (hbuf (hnd st x)) as [i|] eqn:Ha.
+  - destruct (inv_get st x i I Ha) as [b [E [W [R C]]]].
+    unfold step_ok, step. cbn [target is_slice_op]. rewrite (proj2 (Nat.ltb_lt _ _) Hx), Hs, Ha, E.
+    cbn [negb Bool.eqb].
+    set (h' := mkh (Some i) (hsl (hnd st x)) (hoff (hnd st x)) (hlen (hnd st x))).
+    assert (Wf : buf_wf (set_flags b imm nc)) by exact W.
+    destruct (reval_sound st x i b (set_flags b imm nc) h' I Hx Ha E eq_refl Wf eq_refl eq_refl) as [I' [F V]].
+    split; [discriminate|]. split; [exact I'|].
+    unfold sstep. cbn [target is_slice_op].
+    rewrite abs_length, (proj2 (Nat.ltb_lt _ _) Hx), nth_abs, (absh_arr _ _ Hs), Ha. cbn [negb Bool.eqb].
+    unfold upd_arr. fold h'. rewrite (abs_frame st x _ h' Hx F).
+    rewrite (absh_arr _ h') by exact Hs. cbn [hbuf h'].
+    unfold aval. fold (hval (hset (sheap st) i (set_flags b imm nc)) i). rewrite V. unfold hval. rewrite E.
+    reflexivity.
+  - apply guard_ok; [exact I| |].
+    + unfold step. cbn [target is_slice_op]. rewrite (proj2 (Nat.ltb_lt _ _) Hx), Hs, Ha. reflexivity.
+    + intros h. unfold sstep. cbn [target is_slice_op].
+      rewrite abs_length, (proj2 (Nat.ltb_lt _ _) Hx), nth_abs, (absh_arr _ _ Hs), Ha. cbn [negb Bool.eqb aval G fst snd].
+      pose proof (lset_abs_same st x Hx Hs) as L. rewrite Ha in L. cbn [aval] in L. rewrite L. reflexivity.
+Qed.
+
+(* ------------------------------------------------------------------ clone / clear *)
+Lemma s_clone_same v : s_clone v (Some v) = D v.
+Proof. unfold s_clone. destruct v as [[t l]|]; [rewrite Nat.eqb_refl|]; reflexivity. Qed.
+
+Lemma drop_step st x : inv st -> x < length (shnd st) -> hsl (hnd st x) = false ->
+  let st' := upd_arr st x (unref_opt (sheap st) (hbuf (hnd st x))) None in
+  inv st' /\ abs st' = lset (abs st) x (false, None).
+Proof.
+  intros I Hx Hs st'. subst st'. unfold upd_arr.
+  set (h' := mkh None (hsl (hnd st x)) (hoff (hnd st x)) (hlen (hnd st x))).
+  destruct (drop_sound st x _ h' I Hx eq_refl eq_refl) as [I' F].
+  split; [exact I'|]. rewrite (abs_frame st x _ h' Hx F). rewrite (absh_arr _ h') by exact Hs. reflexivity.
+Qed.
+
+Lemma clone_sound st x (from : option arr) (vfrom : option sval) :
+  inv st -> x < length (shnd st) -> hsl (hnd st x) = false ->
+  match from with
+  | None => vfrom = None
+  | Some s => vfrom = Some (aval (sheap st) s) /\ (forall k, s = Some k -> exists c, hget (sheap st) k = Some c)
+  end ->
+  let r := fin st x false (array_clone (sheap st) (hbuf (hnd st x)) from) in
+  let sp := s_clone (aval (sheap st) (hbuf (hnd st x))) vfrom in
+  snd r <> OFault /\ inv (fst r) /\ (lset (abs st) x (false, fst sp), snd sp) = (abs (fst r), vis (snd r)).
+Proof.
+  intros I Hx Hs Hf. cbn zeta. set (hp := sheap st). set (a := hbuf (hnd st x)).
+  assert (Same : (lset (abs st) x (false, aval hp a), ODone 0 0) = (abs st, ODone 0 0)).
+  { subst hp a. rewrite lset_abs_same by assumption. reflexivity. }
+  assert (SameR : (lset (abs st) x (false, aval hp a), ORefused) = (abs st, ORefused)).
+  { subst hp a. rewrite lset_abs_same by assumption. reflexivity. }
+  destruct from as [s|].
+  - destruct Hf as [-> Hk]. unfold array_clone. change (sheap st) with hp.
+    destruct (match a, s with Some i, Some k => i =? k | None, None => true | _, _ => false end) eqn:Eq.
+    + (* identical buffers *)
+      assert (a = s) as <-.
+      { destruct a as [i|], s as [k|]; try discriminate; [apply Nat.eqb_eq in Eq; subst|]; reflexivity. }
+      cbn [fin fst snd vis]. subst hp a. rewrite upd_arr_same by assumption.
+      rewrite s_clone_same. split; [discriminate|]. split; [exact I|exact Same].
+    + destruct a as [i|] eqn:Ea.
+      * destruct (inv_get st x i I Ea) as [b [E [W [R C]]]]. fold hp in E.
+        destruct s as [k|].
+        -- destruct (Hk k eq_refl) as [c Ec]. fold hp in Ec. rewrite E, Ec.
+           assert (Hne : Some i <> Some k). { apply Nat.eqb_neq in Eq. congruence. }
+           unfold aval. rewrite E, Ec. cbn [option_map s_clone bval].
+           destruct (Nat.eqb_spec (btr b) (btr c)) as [Tq|Tq]; cbn [negb].
+           ++ cbn [fin fst snd vis]. unfold upd_arr.
+              set (h' := mkh (Some k) (hsl (hnd st x)) (hoff (hnd st x)) (hlen (hnd st x))).
+              destruct (share_sound st x (Some i) k c h' I Hx Ea Ec Hne eq_refl) as [I' [F V]].
+              split; [discriminate|]. split; [exact I'|].
+              fold hp in F, V, I'. cbn [unref_opt] in *.
+              rewrite (abs_frame st x _ h' Hx F). rewrite (absh_arr _ h') by exact Hs. cbn [hbuf h'].
+              unfold aval. fold (hval (hunref (haddref hp k) i) k). rewrite V. unfold hval. rewrite Ec. reflexivity.
+           ++ cbn [fin fst snd vis]. rewrite <- Ea. subst hp. rewrite upd_arr_same by assumption.
+              split; [discriminate|]. split; [exact I|].
+              pose proof SameR as S'. unfold aval in S'. rewrite E in S'. exact S'.
+        -- cbn [fin fst snd vis].
+           destruct (drop_step st x I Hx Hs) as [I' A']. fold a in I', A'. rewrite Ea in I', A'. fold hp in I', A'. cbn [unref_opt] in *.
+           split; [discriminate|]. split; [exact I'|]. rewrite A'.
+           unfold aval. rewrite E. reflexivity.
+      * destruct s as [k|]; [|discriminate].
+        destruct (Hk k eq_refl) as [c Ec]. fold hp in Ec.
+        cbn [fin fst snd vis]. unfold upd_arr.
+        set (h' := mkh (Some k) (hsl (hnd st x)) (hoff (hnd st x)) (hlen (hnd st x))).
+        assert (Hne : None <> Some k) by discriminate.
+        destruct (share_sound st x None k c h' I Hx Ea Ec Hne eq_refl) as [I' [F V]].
+        split; [discriminate|]. split; [exact I'|].
+        fold hp in F, V, I'. cbn [unref_opt] in *.
+        rewrite (abs_frame st x _ h' Hx F). rewrite (absh_arr _ h') by exact Hs. cbn [hbuf h'].
+        change (aval (haddref hp k) (Some k)) with (hval (haddref hp k) k). rewrite V.
+        unfold hval, aval. rewrite Ec. reflexivity.
+  - subst vfrom. unfold array_clone. cbn [s_clone D fst snd]. destruct a as [i|] eqn:Ea.
+    + cbn [fin fst snd vis].
+      destruct (drop_step st x I Hx Hs) as [I' A']. fold a in I', A'. rewrite Ea in I', A'. fold hp in I', A'. cbn [unref_opt] in *.
+      split; [discriminate|]. split; [exact I'|]. rewrite A'. reflexivity.
+    + cbn [fin fst snd vis]. rewrite <- Ea. subst hp. rewrite upd_arr_same by assumption.
+      split; [discriminate|]. split; [exact I|]. exact Same.
+Qed.
+
+Lemma step_clone st x y : inv st -> step_ok st (OClone x y).
+Proof.
+  intros I. arr_guards I st x Hx Hs.
+  unfold step_ok, step, sstep. cbn [target is_slice_op].
+  rewrite abs_length, (proj2 (Nat.ltb_lt _ _) Hx), Hs, nth_abs, (absh_arr _ _ Hs). cbn [negb Bool.eqb].
+  destruct y as [k|].
+  - rewrite !nth_abs.
+    destruct (Nat.ltb_spec k (length (shnd st))) as [Hk|Hk]; cbn [negb orb].
+    2:{ split; [discriminate|]. split; [exact I|reflexivity]. }
+    destruct (hsl (hnd st k)) eqn:Hsk.
+    { unfold absh. rewrite Hsk. cbn [fst]. split; [discriminate|]. split; [exact I|reflexivity]. }
+    rewrite (absh_arr _ _ Hsk). cbn [fst snd].
+    pose proof (clone_sound st x (Some (hbuf (hnd st k))) (Some (aval (sheap st) (hbuf (hnd st k)))) I Hx Hs) as C.
+    cbn zeta in C.
+    destruct (fin st x false (array_clone (sheap st) (hbuf (hnd st x)) (Some (hbuf (hnd st k))))) as [st' out].
+    cbn [fst snd] in C. apply C. split; [reflexivity|].
+    intros k' Hk'. destruct (inv_get st k k' I Hk') as [c [Ec _]]. eauto.
+  - pose proof (clone_sound st x None None I Hx Hs eq_refl) as C. cbn zeta in C.
+    destruct (fin st x false (array_clone (sheap st) (hbuf (hnd st x)) None)) as [st' out].
+    cbn [fst snd] in C. exact C.
+Qed.
+
+(* ------------------------------------------------------------------ the operations covered so far *)
+Definition core_op (o : op) : bool :=
+  match o with
+  | OAppend _ _ | OInsert _ _ _ | OSet _ _ _ _ _ | OSlice _ _ _ _ | OClone _ _ | OReduce _
+  | OBufInsert _ _ _ | OBufCut _ _ _ | OBufSet _ _ _ _ | ONew _ _ _ _ | OFlags _ _ _ => true
+  | _ => false
+  end.
+
+Theorem cow_step_core st o : inv st -> core_op o = true -> step_ok st o.
+Proof.
+  intros I C. destruct o; try discriminate;
+    auto using step_append, step_insert, step_set, step_slice, step_clone, step_reduce,
+               step_bufinsert, step_bufcut, step_bufset, step_new, step_flags.
+Qed.
+
+(* ------------------------------------------------------------------ histories *)
+Definition run_abs (st : state) (ops : list op) : list (list sv * outcome) :=
+  map (fun r => (abs (fst r), vis (snd r))) (run st ops).
+
+Lemma histories_gen (P : op -> bool) :
+  (forall st o, inv st -> P o = true -> step_ok st o) ->
+  forall ops st, inv st -> forallb P ops = true ->
+    run_abs st ops = srun st (abs st) ops /\
+    Forall (fun r => snd r <> OFault /\ inv (fst r)) (run st ops).
+Proof.
+  intros H ops. induction ops as [|o ops IH]; intros st I A.
+  - split; [reflexivity|constructor].
+  - cbn [forallb] in A. apply andb_prop in A. destruct A as [Po A].
+    pose proof (H st o I Po) as S. unfold step_ok in S.
+    unfold run_abs. cbn [run srun]. destruct (step st o) as [st' out]. destruct S as [F [I' E]].
+    rewrite E. cbn [map fst snd]. destruct (IH st' I' A) as [IH1 IH2]. split.
+    + f_equal. exact IH1.
+    + constructor; [split; assumption|exact IH2].
+Qed.
+
+(* ------------------------------------------------------------------ corollaries *)
+Lemma sstep_frame vs o h y d : y <> target o -> nth y (fst (sstep vs o h)) d = nth y vs d.
+Proof.
+  intros Hy. unfold sstep.
+  destruct (negb (target o <? length vs)); [reflexivity|].
+  destruct (nth (target o) vs (false, None)) as [k v].
+  destruct (negb (Bool.eqb k (is_slice_op o))); [reflexivity|].
+  assert (L : forall w, nth y (lset vs (target o) w) d = nth y vs d).
+  { intros w. rewrite nth_lset. destruct (Nat.eqb_spec y (target o)); [contradiction|reflexivity]. }
+  destruct o; cbn [fst]; try apply L.
+  - destruct y0 as [j|]; [|apply L].
+    destruct (negb (j <? length vs) || fst (nth j vs (false, None))); [reflexivity|apply L].
+  - destruct (negb (x <? length vs) || fst (nth x vs (false, None))); [reflexivity|apply L].
+Qed.
+
+Lemma view_abs st y : view st y = svec (snd (nth y (abs st) (false, None))).
+Proof.
+  rewrite nth_abs. unfold view, absh. cbn [snd]. destruct (hbuf (hnd st y)) as [i|]; [|reflexivity].
+  destruct (hget (sheap st) i); reflexivity.
+Qed.
+
+Lemma others_unchanged_gen st o y : step_ok st o -> y <> target o ->
+  view (fst (step st o)) y = view st y.
+Proof.
+  intros S Hy. unfold step_ok in S. destruct (step st o) as [st' out]. destruct S as [_ [_ E]].
+  cbn [fst]. rewrite !view_abs.
+  replace (abs st') with (fst (sstep (abs st) o (hint_of st o out))) by (rewrite E; reflexivity).
+  rewrite sstep_frame by assumption. reflexivity.
+Qed.
+
+(* the reference count of every live buffer is the number of handles on it *)
+Lemma ref_inv_of_inv st i b : inv st -> hget (sheap st) i = Some b -> bref b = count_refs (shnd st) i.
+Proof. intros I E. specialize (I i). rewrite E in I. destruct I as [_ [_ C]]. auto. Qed.
+
+Lemma init_inv n m : inv (init n m).
+Proof.
+  intros i. unfold init. cbn [sheap shnd]. rewrite hget_ge by (simpl; lia).
+  unfold count_refs. rewrite filter_app, app_length.
+  assert (Z : forall k h, hbuf h = None ->
+              length (filter (fun h0 : handle => match hbuf h0 with Some k0 => k0 =? i | None => false end)
+                             (repeat h k)) = 0).
+  { intros k h Hh. induction k; [reflexivity|]. simpl. rewrite Hh. exact IHk. }
+  rewrite !Z by reflexivity. reflexivity.
+Qed.
+
+(* ------------------------------------------------------------------ refused operations keep every value *)
+Definition keeps_val (r : sval * outcome) (v : sval) : Prop :=
+  snd r = ORefused \/ snd r = OGuard -> fst r = v.
+
+Ltac crush_ifs := repeat match goal with |- context [if ?c then _ else _] => destruct c end.
+Ltac keeps_tac :=
+  unfold keeps_val; crush_ifs; cbn [fst snd D Dn R G]; intros [H|H]; try discriminate; reflexivity.
+
+Lemma sstep_refused vs o h :
+  snd (sstep vs o h) = ORefused \/ snd (sstep vs o h) = OGuard -> fst (sstep vs o h) = vs.
+Proof.
+  unfold sstep.
+  destruct (negb (target o <? length vs)); [reflexivity|].
+  destruct (nth (target o) vs (false, None)) as [k v] eqn:En.
+  destruct (negb (Bool.eqb k (is_slice_op o))); [reflexivity|].
+  assert (L : forall r : sval * outcome, keeps_val r v ->
+            snd (lset vs (target o) (k, fst r), snd r) = ORefused \/
+            snd (lset vs (target o) (k, fst r), snd r) = OGuard ->
+            fst (lset vs (target o) (k, fst r), snd r) = vs).
+  { intros r K H. cbn [fst snd] in *. rewrite (K H), <- En. apply lset_same. }
+  destruct o; try (apply L).
+  - unfold s_append. destruct v as [[t l]|]; keeps_tac.
+  - unfold s_insert. destruct v as [[t l]|]; keeps_tac.
+  - unfold s_set. destruct v as [[t l]|]; keeps_tac.
+  - unfold s_slice. destruct v as [[t l]|]; keeps_tac.
+  - unfold s_reserve. destruct v as [[t l]|]; keeps_tac.
+  - destruct y as [j|].
+    + destruct (negb (j <? length vs) || fst (nth j vs (false, None))); [reflexivity|]. apply L.
+      unfold s_clone. destruct v as [[t l]|], (snd (nth j vs (false, None))) as [[t' l']|]; keeps_tac.
+    + apply L. unfold s_clone. keeps_tac.
+  - keeps_tac.
+  - unfold s_bufinsert. destruct v as [[t l]|]; keeps_tac.
+  - unfold s_bufcut. destruct v as [[t l]|]; keeps_tac.
+  - unfold s_bufset. destruct v as [[t l]|]; keeps_tac.
+  - unfold s_printf. destruct v as [[t l]|]; keeps_tac.
+  - unfold s_string. destruct v as [[t l]|]; keeps_tac.
+  - keeps_tac.
+  - destruct v as [[t l]|]; keeps_tac.
+  - destruct (negb (x <? length vs) || fst (nth x vs (false, None))); [reflexivity|]. apply L.
+    unfold s_mkslice. destruct (s_clone v (Some (snd (nth x vs (false, None))))) as [w []];
+      unfold keeps_val; cbn [fst snd D R]; intros [H|H]; try discriminate; reflexivity.
+  - unfold s_write. destruct v as [[t l]|]; keeps_tac.
+Qed.
+
+Lemma refused_unchanged_gen st o : step_ok st o ->
+  snd (step st o) = ORefused \/ snd (step st o) = OGuard -> abs (fst (step st o)) = abs st.
+Proof.
+  intros S H. unfold step_ok in S. destruct (step st o) as [st' out]. destruct S as [_ [_ E]].
+  cbn [fst snd] in *.
+  assert (H' : snd (sstep (abs st) o (hint_of st o out)) = ORefused \/
+               snd (sstep (abs st) o (hint_of st o out)) = OGuard).
+  { rewrite E. cbn [snd]. destruct H as [->| ->]; [left|right]; reflexivity. }
+  pose proof (sstep_refused _ _ _ H') as K. rewrite E in K. exact K.
+Qed.
+
+(* ------------------------------------------------------------------ the statements of Properties.v *)
+Definition covered_op (o : op) : bool := core_op o.
+
+Theorem cow_step st o : inv st -> covered_op o = true ->
+  let '(st', out) := step st o in
+  out <> OFault /\ inv st' /\ sstep (abs st) o (hint_of st o out) = (abs st', vis out).
+Proof. intros I C. exact (cow_step_core st o I C). Qed.
+
+Theorem cow_others st o y : inv st -> covered_op o = true -> y <> target o ->
+  view (fst (step st o)) y = view st y.
+Proof. intros I C. apply others_unchanged_gen. exact (cow_step_core st o I C). Qed.
+
+Theorem cow_histories ops st : inv st -> forallb covered_op ops = true ->
+  run_abs st ops = srun st (abs st) ops /\
+  Forall (fun r => snd r <> OFault /\ inv (fst r)) (run st ops).
+Proof. apply (histories_gen covered_op). intros s o I C. exact (cow_step_core s o I C). Qed.
+
+Theorem refused_unchanged st o : inv st -> covered_op o = true ->
+  snd (step st o) = ORefused \/ snd (step st o) = OGuard -> abs (fst (step st o)) = abs st.
+Proof. intros I C. apply refused_unchanged_gen. exact (cow_step_core st o I C). Qed.
+
+Theorem model_no_fault st o : inv st -> covered_op o = true -> snd (step st o) <> OFault.
+Proof.
+  intros I C. pose proof (cow_step_core st o I C) as S. unfold step_ok in S.
+  destruct (step st o) as [st' out]. tauto.
+Qed.
+
+Theorem ref_inv ops n m : forallb covered_op ops = true ->
+  Forall (fun r => forall i b, hget (sheap (fst r)) i = Some b -> bref b = count_refs (shnd (fst r)) i)
+         (run (init n m) ops).
+Proof.
+  intros A. destruct (cow_histories ops (init n m) (init_inv n m) A) as [_ F].
+  eapply Forall_impl; [|exact F]. intros r [_ I] i b E. apply ref_inv_of_inv; assumption.
+Qed.
